@@ -119,7 +119,7 @@ def rule_r3_r4(ck, prog, cg, roles):
     found = 0
     for t in sorted(roles.thread_entries):
         tf = prog.funcs[t]
-        g = Graph(prog, tf, inline=same_class_inline(prog, roles.cls), max_depth=3)
+        g = Graph(prog, tf, inline=same_class_inline(prog, roles.cls), max_depth=5)
         rd = reaching_defs(g)
         consumes = g.calls('CircularBuffer::Consume')
         exports = g.calls(EXPORTER_EXPORT)
@@ -222,7 +222,7 @@ def rule_r3_r4(ck, prog, cg, roles):
                                 pushed.add(o.get('id'))
                 exported = set()
                 for ep in exports:
-                    if ep.ctx is not cp.ctx:
+                    if g.unit_ctx(ep.ctx, exports) is not g.unit_ctx(cp.ctx, exports):
                         continue
                     # the argument, or the local view it was built into, is made of data()/size() of the container
                     roots = [(ep.f, ep.n['i'], ep.ctx)]
@@ -236,18 +236,22 @@ def rule_r3_r4(ck, prog, cg, roles):
                                 o = sf.nodes[m['obj']]
                                 if o['k'] == 'ref':
                                     exported.add(o.get('id'))
+                pushed = {c_ for v_ in pushed for c_ in g.canon_var(v_)}
+                exported = {c_ for v_ in exported for c_ in g.canon_var(v_)}
                 if pushed and exported and pushed & exported:
                     ck.holds('C01.R3', lf, 'taken-pointer-exported', None, 'the taken element is appended to the container handed to Export')
                     # the container must be fresh in every iteration: between one Export and the next Consume it is
                     # re-constructed or cleared, otherwise the previous batch is exported again
                     vid = list(pushed & exported)[0]
-                    fresh = [p for p in g.points if p.ctx is cp.ctx and p.n is not None and (
+                    ucp = g.unit_ctx(cp.ctx, exports)
+                    fresh = [p for p in g.points if g.unit_ctx(p.ctx, exports) is ucp and p.n is not None and (
                         (p.n['k'] == 'declstmt' and any(d['id'] == vid for d in p.n['decls'])) or
-                        (p.n['k'] == 'call' and p.n.get('obj') is not None and cp.f.nodes[p.n['obj']].get('id') == vid and
+                        (p.n['k'] == 'call' and p.n.get('obj') is not None and p.f.nodes[p.n['obj']].get('id') is not None and
+                         vid in g.canon_var(p.f.nodes[p.n['obj']].get('id')) and
                          strip_targs(p.n.get('c', '')).rsplit('::', 1)[-1] in ('clear', 'operator=', 'swap')))]
                     stale = None
                     for ep in exports:
-                        if ep.ctx is not cp.ctx:
+                        if g.unit_ctx(ep.ctx, exports) is not ucp:
                             continue
                         r = g.reachable_from([q for (q, _l) in ep.succ], avoid=fresh)
                         if cp.id in r:
